@@ -506,6 +506,8 @@ func finish(m *Merged, known *KnownFile, t0 time.Time) int {
 	}
 	exit := 0
 	var totalFresh int64
+	// replay files belong to one run: drop those of earlier runs
+	os.RemoveAll(filepath.Join(VerifDir, "replays", p.ID))
 	os.MkdirAll(filepath.Join(VerifDir, "replays", p.ID), 0o755)
 	for i, v := range fresh {
 		totalFresh += m.ViolCounts[v.Sig()]
